@@ -1,5 +1,6 @@
 import EG.Step
 import EG.Trav
+import EG.Single
 /-
   Main — line-protocol driver of the mirror model M.
   One operation per input line, one answer line per operation
@@ -18,6 +19,18 @@ def filterTable (k : Nat) (l : LId) (x : Option VId) : Bool :=
 
 structure DState where
   w : World := World.init
+  ts : Sg.TS := {}
+  ss : Sg.SS := {}
+
+/-- fixed configuration of the semi-singleton classes used by the harness
+    (harness/adapter.py builds the same): classes 0,1,2 share metaclass 0 (1 is a subclass of 0),
+    class 3 has its own metaclass 1, classes 4,5 (5 a subclass of 4) use metaclass 2 with a
+    custom hash function -/
+def ssCfg : Sg.SSCfg where
+  mapOf := fun c => if c ≤ 2 then 0 else if c = 3 then 1 else 2
+  keyOf := fun m a =>
+    if m = 2 then [0, 1, 1, 1, 1, 1, 2, 2, 2].getD a 9      -- len(args) + len(kwargs)
+    else [0, 1, 1, 1, 2, 3, 4, 4, 5].getD a 9               -- ==-class of (args, json(kwargs))
 
 def showOptV : Option VId → String
   | none => "-"
@@ -247,7 +260,50 @@ def step (st : DState) (line : String) : DState × String :=
     | none => bad
   match toks with
   | [] => (st, "")
-  | ["reset"] => ({ st with w := World.init }, "ok")
+  | ["reset"] => ({}, "ok")
+  | ["tsnew", c, a] =>
+    match parseId 'C' c, parseId 'A' a with
+    | some c, some a =>
+      let (ts, r) := st.ts.step (.construct c a)
+      ({ st with ts := ts }, match r with | some i => s!"ok T{i}" | none => "ok -")
+    | _, _ => bad
+  | ["tsclear", c] =>
+    if c == "*" then ({ st with ts := (st.ts.step (.clear none)).1 }, "ok")
+    else match parseId 'C' c with
+      | some c => ({ st with ts := (st.ts.step (.clear (some c))).1 }, "ok")
+      | none => bad
+  | ["tsobs"] =>
+    (st, "ts inst=" ++ showList (fun (p : Nat × Nat) => s!"{p.1}:{p.2}") st.ts.inst ++ " inits=" ++
+      showList (fun (p : Nat × Nat × Nat) => s!"{p.1}:{p.2.1}:{p.2.2}") st.ts.inits)
+  | [op, x, a] =>
+    if op == "ssnew" || op == "ssdrop" || op == "sscheck" || op == "ssadd" then
+      match (if op == "ssadd" then parseId 'S' x else parseId 'C' x), parseId 'A' a with
+      | some x, some a =>
+        if op == "ssadd" && x ≥ st.ss.next then bad else
+        let sop : Sg.SSOp := if op == "ssnew" then .construct x a else if op == "ssdrop" then .drop x a
+          else if op == "sscheck" then .check x a else .addMapping x a
+        let (ss, r) := st.ss.step ssCfg sop
+        ({ st with ss := ss }, match r with
+          | .inst i => s!"ok S{i}" | .none => "ok -" | .ok => "ok" | .keyError => "err KeyError"
+          | .bad => "bad-op"
+          | .insts l => "ok " ++ showList (fun i => s!"S{i}") l)
+      | _, _ => bad
+    else generic ()
+  | ["ssall", c] =>
+    match parseId 'C' c with
+    | some c => match (st.ss.step ssCfg (.getAll c)).2 with
+      | .insts l => (st, "ok " ++ showList (fun i => s!"S{i}") l)
+      | _ => bad
+    | none => bad
+  | ["ssclear", c] =>
+    match parseId 'C' c with
+    | some c => ({ st with ss := (st.ss.step ssCfg (.clear c)).1 }, "ok")
+    | none => bad
+  | ["ssobs"] =>
+    (st, "ss " ++ " ".intercalate ((List.range 3).map fun m =>
+        s!"m{m}=" ++ showList (fun (p : Sg.SKey × Nat) => s!"{p.1.1}/{p.1.2}:{p.2}") (st.ss.maps m)) ++
+      " cls=" ++ showList (fun i => toString (st.ss.instCls i)) (List.range st.ss.next) ++
+      " inits=" ++ showList (fun (p : Nat × Nat × Nat) => s!"{p.1}:{p.2.1}:{p.2.2}") st.ss.inits)
   | ["obs"] => (st, obs w)
   | [kind, uni, start, dir, unk, via, res, mode] =>
     if kind == "bft" || kind == "dftr" || kind == "dfti" then
